@@ -886,7 +886,13 @@ func C20(tier string) int {
 	for i := 0; i < len(cases) && len(samples) < 6; i += len(cases)/6 + 1 {
 		samples = append(samples, map[string]any{"case": i, "request": cases[i].Label})
 	}
+	racePassInfo, err := raceFindings(run, "accounts are generated into a wallet that was empty at start-up while two clients list it and a third signs with what exists so far, free-running in a child built with -race; a fatal error of the runtime in Dirk's code counts as well")
+	if err != nil {
+		run.HarnessErr = err
+		return run.Finish()
+	}
 	run.Coverage = map[string]any{
+		"race_detector_pass":                     racePassInfo,
 		"evaluations":                            done,
 		"distinct_nontrivial":                    len(perRPC),
 		"rule":                                   "for every RPC of Signer, Lister, AccountManager and WalletManager (as an authorised client) and of the key-generation service (as a non-peer, and Prepare as a peer): the default well-formed message and every message with one field off default (two in thorough): bytes absent / present with length 0 (hand-encoded) / 1,3,4,31,32,33,48,96,4096; numbers 0,1,2^31,2^32-1,2^63,2^64-1; sub-messages absent; names empty, unknown, without slash, leading slash, regular-expression metacharacters alone and in pairs (^ $ ^$ [ \\ * (? |), 80 kB; batches of 0,1,2,65,1000 entries incl. an empty entry; each marshalled, decoded by the real protobuf library and handed to the real handler in a worker process under a 16 GiB address-space limit; after each case an ordinary signing request must be answered; plus, on three real instances that talk over the real gRPC transport (real API servers and real sender on loopback addresses, own certificate authority), five kinds of failing distributed-generation requests sent 40 times in a row each, after which an ordinary generation started on each instance must be answered; distinct = RPCs exercised",
